@@ -173,7 +173,7 @@ class Source:
 # --------------------------------------------------------------------------------------
 # attribute filtering (rule R6)
 # --------------------------------------------------------------------------------------
-KEEP_DERIVES = {"Clone", "Copy", "PartialEq", "Eq", "Default", "Debug", "PartialOrd", "Ord"}
+KEEP_DERIVES = {"Clone", "Copy", "PartialEq", "Eq", "Debug", "PartialOrd", "Ord"}
 DROP_ATTR_RE = re.compile(
     r"^\s*#\[(account|zero_copy|repr|error_code|msg|inline|allow|cfg_attr|constant|must_use|event|doc|deprecated|access_control|instruction|cold)\b")
 
@@ -183,6 +183,16 @@ def filter_attr_lines(lines, log):
     for ln in lines:
         s = ln.strip()
         if s.startswith("///") or s.startswith("//!"):
+            continue
+        if re.match(r"^\s*#\[(zero_copy|account\(zero_copy)", ln):
+            # anchor's zero_copy expands to #[derive(Copy, Clone)] #[repr(..)] + bytemuck impls
+            log.append(f"R6 replace `{s}` by #[derive(Clone, Copy)]")
+            out.append(re.match(r"^\s*", ln).group(0) + "#[derive(Clone, Copy)]")
+            continue
+        if re.match(r"^\s*#\[account\]", ln):
+            # anchor's #[account] derives AnchorSerialize/AnchorDeserialize/Clone and the discriminator impls
+            log.append(f"R6 replace `{s}` by #[derive(Clone)]")
+            out.append(re.match(r"^\s*", ln).group(0) + "#[derive(Clone)]")
             continue
         if DROP_ATTR_RE.match(ln):
             log.append(f"R6 drop attribute `{s}`")
@@ -430,6 +440,23 @@ class Gen:
                     rewrites.append(dict(pat=r"for (\w+) in \(([^()]*?)\.\.([^()]*(?:\(\))?[^()]*?)\)\.rev\(\) \{",
                                          rep=r"let mut \1_rev: usize = \3; while \1_rev > \2 { \1_rev = \1_rev - 1; let \1 = \1_rev;",
                                          count=cnt, tl=tl))
+                    cur = ("none", None)
+                elif c in ("rewrite_for", "rewrite_enum", "rewrite_enum_mut", "rewrite_iter_mut", "rewrite_iter"):
+                    cnt = int(t[0]) if t else 1
+                    pats = {
+                        # R1/R2/R3: Verus has no Enumerate/IterMut specs and no `continue` in for-loops; index-based while loops are equivalent
+                        "rewrite_for": (r"for (\w+) in ([\w.()]+)\.\.([\w.() +\-]+?) \{",
+                                        r"let mut \1_it: usize = \2; while \1_it < \3 { let \1 = \1_it; \1_it = \1_it + 1;"),
+                        "rewrite_enum": (r"for \((\w+), (\w+)\) in ([\w.]+)\.iter\(\)\.enumerate\(\) \{",
+                                         r"let mut \1_it: usize = 0; while \1_it < \3.len() { let \1 = \1_it; \1_it = \1_it + 1; let \2 = &\3[\1];"),
+                        "rewrite_enum_mut": (r"for \((\w+), (\w+)\) in ([\w.]+)\.iter_mut\(\)\.enumerate\(\) \{",
+                                             r"let mut \1_it: usize = 0; while \1_it < \3.len() { let \1 = \1_it; \1_it = \1_it + 1; let \2 = &mut \3[\1];"),
+                        "rewrite_iter_mut": (r"for (\w+) in ([\w.]+)\.iter_mut\(\) \{",
+                                             r"let mut \1_it: usize = 0; while \1_it < \2.len() { let \1_ix = \1_it; \1_it = \1_it + 1; let \1 = &mut \2[\1_ix];"),
+                        "rewrite_iter": (r"for (\w+) in ([\w.]+)\.iter\(\) \{",
+                                         r"let mut \1_it: usize = 0; while \1_it < \2.len() { let \1_ix = \1_it; \1_it = \1_it + 1; let \1 = &\2[\1_ix];"),
+                    }
+                    rewrites.append(dict(pat=pats[c][0], rep=pats[c][1], count=cnt, tl=tl))
                     cur = ("none", None)
                 elif c == "rewrite":
                     # //@ rewrite /pattern/ => /replacement/ [count]
